@@ -56,7 +56,7 @@ func (w *Workload) acc() *Accounts { return w.g.C.Accounts }
 func (w *Workload) freeActor(any bool) (int, bool) {
 	a := w.acc()
 	for _, i := range w.r.Perm(len(a.Actors)) {
-		if !a.Free(i) || w.busy[i] {
+		if !a.Free(i) || w.busy[i] || w.isTwin(i) {
 			continue
 		}
 		if !any && w.v.Balance(a.Actors[i].Addr).LT(math.NewInt(3000)) {
@@ -564,4 +564,14 @@ func (w *Workload) opSend(h int64) (*Intent, bool) {
 	bal := w.v.Balance(w.acc().Addr(a))
 	t := w.r.Intn(len(w.acc().Actors))
 	return w.newIntent(a, MsgSpec{K: "send", T: t, N: w.amount(bal.QuoRaw(3))}), true
+}
+
+// isTwin: twin accounts are reserved for the exact-tie vote scenario.
+func (w *Workload) isTwin(actor int) bool {
+	for _, t := range w.g.C.Cfg.Twins {
+		if w.acc().ActorOfAcct(t) == actor {
+			return true
+		}
+	}
+	return false
 }
